@@ -222,7 +222,53 @@ def run_history(ctx, seed):
                 steps_log.append(('release-initial-pool', pw.release_handshakes()))
                 world.settle(advance=False)
             pw.ch.p_preempt = saved_preempt
-        if rng.random() < (0.3 if proto < 3 else 0.12):
+        idle_family = False
+        if proto < 3 and v2cfg[2] >= 1 and not stalled_initial_pool and rng.random() < 0.6:
+            # a legacy pool grows above core, every connection ends up with one timed-out (orphaned) stream, the pool sits idle for longer than the
+            # trash interval; then a few requests are answered - return_connection on the reactor thread finds a connection idle above core and sets
+            # it aside (_maybe_trash_connection) - while the pool / session / cluster is shut down on another thread; the orphans' answers come late
+            ps = pw.pools()
+            p = ps[0] if ps else None
+            if p is not None and type(p).__name__ == 'HostConnectionPool':
+                idle_family = True
+                core, mx, minr, maxr = v2cfg
+                for _ in range(mx * (maxr + 1)):
+                    if len(p._connections) > core:
+                        break
+                    u = new_uid()
+                    kinds[u] = 'direct-hold'
+                    pw.direct_request(p, u, 'hold', timeout=0.0)
+                    world.settle(advance=False)
+                for h in pw.open_held():
+                    h.release()
+                world.settle(advance=False)
+                nconn = len(p._connections)
+                if nconn > core:
+                    for _ in range(nconn):
+                        u = new_uid()
+                        kinds[u] = 'late'
+                        plan.set(u, 'hold')
+                        rec.execute_async(session, u, timeout=timeout)
+                    world.settle(advance=False)
+                    world.advance_to(world.now + 10.5)
+                    saved_preempt, pw.ch.p_preempt = pw.ch.p_preempt, rng.choice([0.3, 0.5, 0.5])
+                    for _ in range(rng.randint(1, 3)):
+                        u = new_uid()
+                        kinds[u] = 'rows'
+                        plan.set(u, 'rows')
+                        rec.execute_async(session, u, timeout=30.0)
+                    how = rng.choice(['pool', 'pool', 'session', 'cluster'])
+                    target = {'pool': p.shutdown, 'session': session.shutdown, 'cluster': cluster.shutdown}[how]
+                    if rng.random() < 0.7:
+                        world.spawn(target, name='shutdown-' + how)       # the application shuts down on a thread of its own
+                        world.settle(advance=False)
+                    else:
+                        target()
+                    pw.ch.p_preempt = saved_preempt
+                    did_shutdown[0] = True
+                    steps_log.append(('grown-idle-pool-shut-down-while-answers-arrive', nconn, how))
+                    info['idle_family'] = how
+        if not idle_family and rng.random() < (0.3 if proto < 3 else 0.12):
             # saturation prelude: fill every connection of a pool exactly to its capacity with requests the node keeps back (the pool may grow meanwhile),
             # then borrowers that have to wait: some give up while the pool is still full, some are woken by a stream that really was freed
             ps = pw.pools()
@@ -614,6 +660,14 @@ def run_history(ctx, seed):
                         installed, c.sim_id in pw.trashed, getattr(p, 'is_shutdown', None), late)))
             info['census'] = census
         harness += pw.harness_errors()[len(harness):]
+    v2_trashed, v2_overlap = 0, 0
+    for c in net.conns:
+        p = owner_of(c)
+        if type(p).__name__ == 'HostConnectionPool' and c.sim_id in pw.trashed:
+            v2_trashed += 1
+            if c.sim_id in pw.pool_rec(p)['installed_at_shutdown']:
+                v2_overlap += 1          # it was still among _connections when shutdown() was called and was set aside afterwards
+    info.update({'v2_trashed': v2_trashed, 'v2_overlap': v2_overlap})
     info.update({'conns': len(net.conns), 'online_checks': pw.checks[0], 'requests': uid[0], 'replace_requests': [(w, c) for w, c, _ in pw.replace_log][:12],
                  'replaced': sum(1 for c in net.conns if c.sim_creator == 'pool-replace'),
                  'grown': sum(1 for c in net.conns if c.sim_creator == 'pool-grow'),
@@ -691,6 +745,8 @@ def run(ctx):
         ctx.count("grown_connections", info['grown'])
         ctx.count("refused_connection_attempts", info['refused'])
         ctx.count("connections_seen_in_trash", info['trashed'])
+        ctx.count("connections_trashed_while_idle_above_core", info['v2_trashed'])
+        ctx.count("shutdowns_overlapping_a_trash_move", info['v2_overlap'])
         ctx.count("late_responses", info['late'])
         ctx.count("unprepared_round_trips", info['unprepared'])
         ctx.count("reprepare_on_other_connection", info.get('reprepare_on_other_connection', 0))
